@@ -165,6 +165,13 @@ def api_job(job):
         weights = {s: float(i + 3) for i, s in enumerate(sorted(case["states"]))}
         df = r["client"].get_national_summary_votes_estimates(weights, 5, [0.7, 0.9])
         out["summary"] = df.to_dict("records")
+        # a second summary call on the same client with another weighting / base: a function of the contests only
+        weights2 = {s: float(2 * i + 1) for i, s in enumerate(sorted(case["states"]))}
+        df2 = r["client"].get_national_summary_votes_estimates(weights2, 40, [0.9])
+        out["summary2"] = df2.to_dict("records")
+        st = r["tables"]["state_data"]
+        out["expected2"] = 40 + sum(weights2[row["postal_code"]] for row in st.to_dict("records") if row["pred_margin"] > 0)
+        out["expected1"] = 5 + sum(weights[row["postal_code"]] for row in st.to_dict("records") if row["pred_margin"] > 0)
     except Exception as e:  # noqa: BLE001
         out["sum_exc"] = (type(e).__name__, str(e)[:200])
     return out
@@ -241,7 +248,15 @@ def run(chk):
             ref = o["summary"]
         elif o["summary"] != ref:
             chk.violation(f"national summary depends on the requested aggregates: {o['job'][1]} gives {o['summary']}, {agg_sets[0]} gives {ref}", replay, {"kind": "history-differs"})
-        for row in o["summary"]:
+        for tag, rows, exp, alphas_ in (("first", o["summary"], o.get("expected1"), (0.7, 0.9)), ("second", o.get("summary2", []), o.get("expected2"), (0.9,))):
+            for row in rows:
+                if exp is not None and abs(row["agg_pred"] - exp) > 0.0051:
+                    chk.violation(f"{tag} national summary call: prediction {row['agg_pred']} but base + weights of the contests with positive margin = {exp}", replay,
+                                  {"kind": "pred-def", "call": tag})
+                for a in alphas_:
+                    if not (row[f"lower_{a}"] <= row["agg_pred"] <= row[f"upper_{a}"]):
+                        chk.violation(f"{tag} national summary call not ordered at level {a}: {row}", replay, {"kind": "order", "call": tag})
+        for row in []:
             for a in (0.7, 0.9):
                 if not (row[f"lower_{a}"] <= row["agg_pred"] <= row[f"upper_{a}"]):
                     chk.violation(f"API national summary not ordered at level {a}: {row}", replay, {"kind": "order"})
